@@ -1332,7 +1332,7 @@ pub fn property() -> Property {
     Property {
         id: "C15",
         level: "exploration",
-        rule: "sequential parts: operation sequences over the 25-letter alphabet {add(4 names x 3 saliences), remove(4), set_enabled(4 x 2), clear} — exhaustively all sequences of length 4 (quick) / 5 (thorough), plus random sequences of length 1..8 (adds may start disabled, 3 salience sets incl. i32::MIN/MAX). Oracle: model = insertion-ordered list + version rule written from the statement; after EVERY operation: its return value, get_rule for all 4 names (salience, enabled, identity tag of the most recent add), get_rules order (salience desc, insertion order among equals), get_rule_names as a set, rule_count, get_rules_by_salience mapped through get_rule_by_index, get_statistics totals, version (strictly grown after add ok / remove true / effective set_enabled / clear of a non-empty base, unchanged after a rejected call, either after a successful call that changes nothing). Non-trivial: the sequence contains a successful remove of a rule that is not last in the listing (positions of other stored rules shift, then every name is looked up); distinct by operation sequence. Concurrent part: programs of 0..4 setup adds + 3 threads x 1..4 calls (mutators + readers get_rule/get_rules/get_rule_names/rule_count/version/get_statistics/get_rules_by_salience) on one Arc<KnowledgeBase>, each program repeated 50x (quick) / 500x (thorough) with pseudo-random yields/spins at the engine's schedule points; every call stamped before/after with an atomic counter; oracle: Wing-Gong search for a linearisation accepted by the same sequential model whose final state also explains all observers read after join; a panic in a call is a violation; a deadlock (no call returns during 500 supervisor polls of 10 ms) is reported only if a re-execution of the same program stalls again, the runner watchdog is the backstop. Non-trivial: in at least one repetition two calls of different threads truly overlap (stamps interleave) and one of them is a mutator; distinct by program.",
+        rule: "sequential parts: operation sequences over the 25-letter alphabet {add(4 names x 3 saliences), remove(4), set_enabled(4 x 2), clear} — exhaustively all sequences of length 4 (quick) / 5 (thorough), plus random sequences of length 1..8 (adds may start disabled, 3 salience sets incl. i32::MIN/MAX). Oracle: model = insertion-ordered list + version rule written from the statement; after EVERY operation: its return value, get_rule for all 4 names (salience, enabled, identity tag of the most recent add), get_rules order (salience desc, insertion order among equals), get_rule_names as a set, rule_count, get_rules_by_salience mapped through get_rule_by_index, get_statistics totals, version (strictly grown after add ok / remove true / effective set_enabled / clear of a non-empty base, unchanged after a rejected call, either after a successful call that changes nothing). Non-trivial: the sequence contains a successful remove of a rule that is not last in the listing (positions of other stored rules shift, then every name is looked up); distinct by operation sequence. Concurrent part: programs of 0..4 setup adds + 3 threads x 1..4 calls (mutators + readers get_rule/get_rules/get_rule_names/rule_count/version/get_statistics/get_rules_by_salience) on one Arc<KnowledgeBase>, each program repeated 50x (quick) / 500x (thorough) with pseudo-random yields/spins at the engine's schedule points; every call stamped before/after with an atomic counter; oracle: Wing-Gong search for a linearisation accepted by the same sequential model whose final state also explains all observers read after join; a panic in a call is a violation; a deadlock (no call returns during 500 supervisor polls of 10 ms) is reported only if a re-execution of the same program stalls again, the runner watchdog is the backstop. Non-trivial: in at least one repetition two calls of different threads truly overlap (stamps interleave) and one of them is a mutator; distinct by program. Concurrent part, drawn last: 1 program in 3 has a thread take a clone() of the knowledge base somewhere in its sequence and read listing, names, count and every lookup off the copy (CloneView); the linearisation must place it at a point within the call where all four describe the model state.",
         assumptions: vec![
             "schedule coverage is what the OS plus the yield hook produce (stress testing with a sound oracle, not schedule enumeration)".into(),
             "a successful call that changes nothing (clear of an empty base, set_enabled to the current value) may or may not bump the version; version values are only required to grow by >= 1 per real change".into(),
